@@ -108,11 +108,52 @@ def detect(sid, checks):
     return 0
 
 
+def detect_wt(sid, wt, checks):
+    """Same as detect, but in a scratch worktree of /repo (at /repo's HEAD) through TLV_REPO.
+
+    /repo stays untouched; evidence goes to a scratch directory, not /verif/evidence.
+    """
+    dst = VERIF / "seeded" / sid
+    meta = json.loads((dst / "meta.json").read_text())
+    checks = checks or [meta["property"]]
+    head = sh("git -C /repo rev-parse HEAD").stdout.strip()
+    sh(f"git -C {wt} checkout -q -f --detach {head}; git -C {wt} reset -q --hard {head}; git -C {wt} clean -fdq")
+    a = sh(f"git -C {wt} apply {dst}/patch.diff")
+    if a.returncode and (dst / "patch_rebased.diff").exists():
+        a = sh(f"git -C {wt} apply {dst}/patch_rebased.diff")
+    if a.returncode:
+        print("patch does not apply to current HEAD (port it by hand into patch_rebased.diff):", a.stderr[-300:])
+        return 2
+    res = {}
+    evd = f"/tmp/tlv_evid/{Path(wt).name}"
+    for c in checks:
+        r = subprocess.run(f"./check {c} --tier quick --jobs {os.environ.get('DETECT_JOBS', '8')}", shell=True, capture_output=True, text=True,
+                           cwd=str(VERIF), env={**os.environ, "TLV_REPO": wt, "TLV_EVIDENCE_DIR": evd})
+        lines = r.stdout.strip().splitlines()
+        vio = [ln for ln in lines if ln.startswith("VIOLATION")]
+        sig = [ln.strip()[:260] for ln in lines if ln.strip().startswith("signature=")]
+        res[c] = {"exit": r.returncode, "violations": len(vio), "signatures": sig[:6], "summary": lines[0][:200] if lines else ""}
+        print(c, "exit", r.returncode, "violations", len(vio))
+        for s_ in sig[:4]:
+            print("   ", s_)
+        if r.returncode not in (0, 1):
+            print("   stderr:", r.stderr[-400:])
+    sh(f"git -C {wt} checkout -q -f HEAD -- . ; git -C {wt} clean -fdq")
+    meta.setdefault("detection", {})
+    for c, v in res.items():
+        meta["detection"][c] = {**v, "repo_head": head[:7], "detected": v["exit"] == 1 and v["violations"] > 0,
+                                "how": "patch applied to a scratch worktree at /repo's HEAD, check run with TLV_REPO pointing at it"}
+    (dst / "meta.json").write_text(json.dumps(meta, indent=1) + "\n")
+    return 0
+
+
 if __name__ == "__main__":
     cmd = sys.argv[1]
     if cmd == "verify":
         sys.exit(verify(sys.argv[2], sys.argv[3]))
     if cmd == "keep":
         keep(sys.argv[2], sys.argv[3], sys.argv[4])
+    if cmd == "detect-wt":
+        sys.exit(detect_wt(sys.argv[2], sys.argv[3], sys.argv[4:]))
     if cmd == "detect":
         sys.exit(detect(sys.argv[2], sys.argv[3:]))
